@@ -638,4 +638,5 @@ pub const PROP: Prop = Prop {
         "recursion must-pass only asserted with 16 frames of slack for route-internal native frames; stack-size cut points are never predicted, only bounded",
     ],
     nondeterminism_is_violation: false,
+    hang_is_violation: true,
 };
